@@ -36,7 +36,17 @@ CLAIMED = {
  "C11": dict(cat="exploration", tech="differential runtime monitor: CanonicalFormatter output vs an independent reference canonicaliser + strict canonical-bytes parser (injectivity), exhaustive small scope + seeded random, library and olpc-cjson binary",
     text="Every key set of size <=3 over an 8-symbol alphabet (prefix pairs, escaped characters, characters below the quote, pre-composed and decomposed é) under every insertion order, random values to depth 4 over all ASCII incl. control characters with floats injected, each also with shuffled member order; the same through the olpc-cjson binary.",
     note="NFC known by construction only for the harness' atom alphabet.", ref="§5 C11"),
+ "C12": dict(cat="exploration", tech="mutation-driven runtime monitor: every single-point mutation of each role's signed portion is served to the real client; oracle 'accepted => exposed content (Serialize view and typed accessors) == signed content', benign rewrites must stay acceptable, swapped roles must be refused",
+    text="The single-point mutation space (scalar change x2, member delete/insert/duplicate-first/duplicate-last, array delete/duplicate/reorder/insert, type-tag swap) of six role documents carrying unknown members at every supported level is enumerated completely; plus benign rewrites, optional members a conforming signer may write, and role swaps under a shared key. Seven known findings (unknown members inside delegations / role entries, empty custom, same-type-tag swaps) are listed with exact signatures.",
+    note="Identity judged on the canonical form; the roles map of root is not extended.", ref="§5 C12"),
+ "C13": dict(cat="exploration", tech="runtime monitor on serde_json::from_slice::<Signed<Root|Targets>> and Key::key_id over mutated key tables; oracle: identifier = SHA-256 of the reference canonical form",
+    text="Key tables of 1..4 keys of every type/encoding with 4 variants of unknown extra members, embedded in root and in delegations (two depths); ten identifier mutations at every position for tables up to 3 keys + seeded random tables; identifier stability across parse/serialise/parse and Key::from_str.",
+    note="SHA-256 from aws-lc-rs.", ref="§5 C13"),
+ "C16": dict(cat="exploration", tech="request-log and file-system monitor over four places (URLs, datastore, cache output, editor output) with a global injectivity map file name -> role name; role documents are handed out in request order so no encoding is assumed",
+    text="Role names over a 12-symbol alphabet of path-significant characters: exhaustive to length 3 (quick) / 4 (thorough), special names, random names to 64 symbols, 8 roles per repository; plain-entry rule on every request and every created file (tree snapshots of the parents), collision = two role names on one file.",
+    note="Names whose encoded form exceeds NAME_MAX may be refused.", ref="§5 C16"),
 }
+
 
 
 
